@@ -192,7 +192,10 @@ def _fresh_digests(plan):
     ) % (root, jdump(plan))
     env = os.environ.copy()
     env["PYTHONHASHSEED"] = "987"
-    pr = subprocess.run([sys.executable, "-c", code], capture_output=True, text=True, env=env, timeout=250)
+    try:
+        pr = subprocess.run([sys.executable, "-c", code], capture_output=True, text=True, env=env, timeout=500)
+    except subprocess.TimeoutExpired:
+        return None
     for ln in pr.stdout.splitlines():
         if ln.startswith("DIGESTS "):
             return json.loads(ln[8:])
@@ -250,8 +253,9 @@ def execute(plan):
     ref = [_dg(a) for a in solo]
     if plan.get("fresh_interpreter"):
         got = _fresh_digests(plan)
-        stats["or.fresh_interpreter"] += 1
-        if got != ref:
+        stats["or.fresh_interpreter"] += 1 if got is not None else 0
+        stats["nj.fresh_interpreter_timeout"] += 1 if got is None else 0
+        if got is not None and got != ref:
             add("differs_from_fresh_process", {"here": [r[:12] for r in ref], "fresh": [g[:12] for g in got]})
     # repeated call, same arguments
     again = mk(0).run()
@@ -327,24 +331,28 @@ def execute(plan):
                 add("history_changed_result", {"sequence": "victim killed while interleaved, then repeated"})
             keys.add("casualty|%s|%s|%s" % (how, bool(conc2[victim].fired["crash_in_ls"] or conc2[victim].fired["raise_in_ls"]), prepared[victim][1]["jac"]))
 
-    # ---- nesting: act 1 runs to completion inside an objective call of act 0
-    nfun = int(solo[0].counts["fun"])
-    if nfun >= 1:
-        j = int(rng.integers(1, nfun + 1))
-        W = World()
-        _, cfg1, blob1, sw1 = prepared[1]
-        if blob1 is None and sw1 is None and prepared[0][3] is None:
-            sub = {"problem": plan["acts"][1]["problem"], "cfg": cfg1}
-            outer = mk(0, faults=[{"kind": "nest", "actor": "fun", "at": j, "plan": sub}], world=W).run()
+    # ---- nesting: one activation runs to completion inside an objective call of another
+    inner_i = next((i for i, pr in enumerate(prepared) if pr[2] is None and pr[3] is None), None)
+    if inner_i is None:
+        stats["nj.nesting_no_fresh_plain_activation"] += 1
+    else:
+        outer_i = 0 if inner_i != 0 else 1
+        nfun = int(solo[outer_i].counts["fun"])
+        if nfun >= 1:
+            j = int(rng.integers(1, nfun + 1))
+            sw_o = prepared[outer_i][3]
+            W = World(rewriter=None if sw_o is None else c13.make_rewriter(prepared[outer_i][0], sw_o, {"fired": False}))
+            sub = {"problem": plan["acts"][inner_i]["problem"], "cfg": prepared[inner_i][1]}
+            outer = mk(outer_i, faults=[{"kind": "nest", "actor": "fun", "at": j, "plan": sub}], world=W).run()
             stats["activations"] += 2
             stats["fault.nest"] += outer.fired["nest"]
             if outer.fired["nest"]:
                 inner = W.nested[0]
-                if _dg(outer) != ref[0]:
+                if _dg(outer) != ref[outer_i]:
                     add("nesting_changed_result", {"who": "outer", "at_fun_call": j})
-                if inner.result_digest() != solo[1].result_digest() or inner.event_digest() != solo[1].event_digest():
+                if inner.result_digest() != solo[inner_i].result_digest() or inner.event_digest() != solo[inner_i].event_digest():
                     add("nesting_changed_result", {"who": "inner", "at_fun_call": j})
-                keys.add("nest|%s|%s|%s" % (prepared[0][1]["jac"], cfg1["jac"], bool(outer.in_ls)))
+                keys.add("nest|%s|%s|%s|%s" % (prepared[outer_i][1]["jac"], prepared[inner_i][1]["jac"], bool(outer.in_ls), prepared[outer_i][2] is not None))
 
     # ---- sequencing: A, B, A ; A after a crashed / interrupted B
     b = mk(1).run()
